@@ -580,6 +580,7 @@ static void red_check(const Json& c, Out& o) {
         R.cmp("rms", dsplib::rms(a), rms, (4 * N + 4) * E * rms); ++ev;
         if (n >= 2) { R.cmp("stddev", dsplib::stddev(a), sd, 4 * N * E * sd + 4 * E * sa); ++ev; }
         R.cmp("dot", dsplib::dot(a, b), dt, (4 * N + 4) * E * dta); ++ev;
+        R.cmp("dot(x, x) same object", dsplib::dot(a, a), ss, (4 * N + 4) * E * ss); ++ev;   // both arguments the SAME array object
         R.cmp("norm(p=1)", dsplib::norm(a, 1), sa, (4 * N + 8) * E * sa); ++ev;
         R.cmp("norm(p=2)", dsplib::norm(a, 2), sqrtl(ss), (4 * N + 8) * E * sqrtl(ss)); ++ev;
         R.cmp("norm(default)", dsplib::norm(a), sqrtl(ss), (4 * N + 8) * E * sqrtl(ss)); ++ev;
@@ -603,6 +604,8 @@ static void red_check(const Json& c, Out& o) {
         R.cmp("rms", dsplib::rms(a), rms, (4 * N + 4) * E * rms); ++ev;
         if (n >= 2) { R.cmp("stddev", dsplib::stddev(a), sd, 4 * N * E * sd + 4 * E * sa); ++ev; }
         R.cmp("dot", tc(dsplib::dot(a, b)), dt, (4 * N + 4) * E * dta); ++ev;   // sum x1[i] x2[i], no conjugation (code, unit test FFT.CztDft)
+        { cld dxx = 0; for (int i = 0; i < n; ++i) dxx += C(x[size_t(i)]) * C(x[size_t(i)]);   // sum x[i]^2 (no conjugation), NOT the energy
+          R.cmp("dot(x, x) same object", tc(dsplib::dot(a, a)), dxx, (4 * N + 4) * E * ss); ++ev; }
         R.cmp("norm(p=1)", dsplib::norm(a, 1), sa, (4 * N + 8) * E * sa); ++ev;
         R.cmp("norm(p=2)", dsplib::norm(a, 2), sqrtl(ss), (4 * N + 8) * E * sqrtl(ss)); ++ev;
         R.cmp("norm(default)", dsplib::norm(a), sqrtl(ss), (4 * N + 8) * E * sqrtl(ss)); ++ev;
